@@ -177,8 +177,15 @@ class Rational(Primitive):
                 result = impl(self._value, right._value)
             except ZeroDivisionError:
                 raise _any.InvalidOperandError("Cannot divide %s by zero" % self._value) from None
+            except OverflowError:
+                raise _any.InvalidOperandError("The result is too large to be represented") from None
             else:
-                return Rational(result)
+                if not isinstance(result, (int, float, fractions.Fraction)):  # E.g., a root of a negative number.
+                    raise _any.InvalidOperandError("The result of the operation is not a real number")
+                try:
+                    return Rational(result)
+                except (OverflowError, ValueError):  # Non-finite float.
+                    raise _any.InvalidOperandError("The result is not a finite real number") from None
         else:
             raise _any.UndefinedOperatorError
 
